@@ -29,7 +29,7 @@ Definition readme_decl : entity :=
       [] [] None [].
 
 Definition readme_components : list component :=
-  match compile readme_decl with Ok cs => cs | _ => [] end.
+  match convert readme_decl with Ok cs => cs | _ => [] end.
 
 (* all messages with their names relative to the file package (nested: Parent.Child) *)
 Definition all_messages (cs : list component) : list (bytes * option (bytes * N) * list ofield) :=
@@ -41,7 +41,7 @@ Definition all_messages (cs : list component) : list (bytes * option (bytes * N)
 Definition find_message (cs : list component) (name : bytes) :=
   find (fun m => bytes_eqb (fst (fst m)) name) (all_messages cs).
 
-Lemma readme_compiles : exists cs, compile readme_decl = Ok cs /\ cs <> [].
+Lemma readme_compiles : exists cs, convert readme_decl = Ok cs /\ cs <> [].
 Proof. eexists. split; [vm_compute; reflexivity|discriminate]. Qed.
 
 Lemma readme_messages_produced :
@@ -60,6 +60,9 @@ Definition type_matches (pkg : bytes) (t : otype) (ty : string) : bool :=
   | TObject p n => is_name (full p n)
   | TOneof p n => is_name (full p n)
   | TEnum p n => is_name (full p n)
+  | TExt tn _ => bytes_eqb tn (bs ty)
+  | TMap _ => false
+  | TNested _ _ => false
   end.
 Definition field_documented (f : string * string * string * N) : bool :=
   match f with (msg, ty, name, num) =>
@@ -90,7 +93,7 @@ Proof. vm_compute; reflexivity. Qed.
 (* the status enum is exactly the documented one *)
 Lemma readme_status_enum :
   map (fun v => (bs (snd (fst v)), snd v)) EntityGen.readme_enum_values
-  = status_values (status_prefix readme_decl) (e_status readme_decl)
+  = entity_status_values readme_decl
   /\ forallb (fun v => bytes_eqb (bs (fst (fst v))) (component_name readme_decl (bs "Status")))
              EntityGen.readme_enum_values = true.
 Proof. split; vm_compute; reflexivity. Qed.
@@ -136,13 +139,13 @@ Lemma readme_facts_present :
 Proof. vm_compute; reflexivity. Qed.
 
 Definition readme_agrees : Prop :=
-  (exists cs, compile readme_decl = Ok cs /\ cs <> [])
+  (exists cs, convert readme_decl = Ok cs /\ cs <> [])
   /\ forallb (fun n => match find_message readme_components (bs n) with Some _ => true | None => false end)
              EntityGen.readme_messages = true
   /\ forallb field_documented EntityGen.readme_fields = true
   /\ forallb rpc_documented EntityGen.readme_rpcs = true
   /\ map (fun v => (bs (snd (fst v)), snd v)) EntityGen.readme_enum_values
-     = status_values (status_prefix readme_decl) (e_status readme_decl).
+     = entity_status_values readme_decl.
 Lemma readme_agreement : readme_agrees.
 Proof.
   exact (conj readme_compiles (conj readme_messages_produced (conj readme_fields_produced
